@@ -168,8 +168,10 @@ theorem sign_spec (x : K) : (0 < x → sign x = 1) ∧ (x < 0 → sign x = -1) :
   · intro h; simp [h, not_lt.mpr (le_of_lt h)]
 
 omit [IsStrictOrderedRing K] in
-/-- outside the switching interval `Step` returns the end values and zero derivatives (every order) -/
-theorem stepFn_outside (f : StepFn K) (x : K) (k : Nat) :
+/-- outside the switching interval `Step` returns the end values and zero derivatives, for the derivative orders the C++
+supports (`1 ≤ k ≤ 3`; `Step::calcDerivative` throws for any other order, `StepFn.deriv` returns 0 there, so nothing is
+claimed about other orders) -/
+theorem stepFn_outside (f : StepFn K) (x : K) (k : Nat) (_hk : 1 ≤ k ∧ k ≤ 3) :
     ((x - f.x0) * f.sgn ≤ 0 → f.value x = f.y0 ∧ f.deriv k x = 0) ∧
     (¬ (x - f.x0) * f.sgn ≤ 0 → 0 ≤ (x - f.x1) * f.sgn → f.value x = f.y1 ∧ f.deriv k x = 0) := by
   constructor
@@ -326,8 +328,92 @@ variable {K : Type} [Field K] [LinearOrder K]
 /-- `SimTK_splder_`: derivatives of order `≥ 2m` (above the spline degree `2m−1`) are identically zero -/
 theorem splder_high_order_zero (ofNat : Nat → K) (ider m n : Nat) (t : K) (x c : Array K) (h : 2 * m ≤ ider) :
     splder ofNat ider m n t x c = 0 := by
-  unfold splder
+  unfold splder splderAt
   have : (2 * (m : Int) - (ider : Int) < 1) := by omega
   simp [this]
 end S
+
+/-! ## The executed spline evaluator as a piecewise polynomial (round 2)
+
+`splderAt` (everything `SimTK_splder_` does after `search_` has located the knot interval `l`) uses no comparison of
+scalars, so the *same code the driver runs over `Float`* can be run over a polynomial type with the evaluation point
+`t` as the indeterminate.  `CP` is a small computable dense-polynomial arithmetic over `ℚ` (Mathlib's `Polynomial` is
+noncomputable); the statements below are closed Boolean computations checked by the kernel (`decide +kernel`: kernel
+reduction only, no compiler, no extra axioms).  They are **instance theorems**: fixed knot vectors, every B-spline
+coefficient basis vector, every knot interval, `t` symbolic.  (The spline is linear in its coefficients, so basis vectors
+determine every spline on these knots — that linearity is not proved here.)  The general statement over arbitrary knots
+remains predicate-only (harness `spline_deriv_chain`, `spline_deriv_of_value`, `spline_continuity`). -/
+
+/-- computable dense polynomials over `ℚ`: coefficient list, lowest degree first, not normalised -/
+structure CP where
+  c : List Rat
+
+namespace CP
+def addL : List Rat → List Rat → List Rat
+  | [], b => b
+  | a, [] => a
+  | a :: as, b :: bs => (a + b) :: addL as bs
+def scaleL (k : Rat) (a : List Rat) : List Rat := a.map (k * ·)
+def mulL : List Rat → List Rat → List Rat
+  | [], _ => []
+  | a :: as, b => addL (scaleL a b) (0 :: mulL as b)
+/-- drop trailing zero coefficients -/
+def normL (a : List Rat) : List Rat := (a.reverse.dropWhile (· == 0)).reverse
+instance : Add CP := ⟨fun a b => ⟨addL a.c b.c⟩⟩
+instance : Neg CP := ⟨fun a => ⟨scaleL (-1) a.c⟩⟩
+instance : Sub CP := ⟨fun a b => ⟨addL a.c (scaleL (-1) b.c)⟩⟩
+instance : Mul CP := ⟨fun a b => ⟨mulL a.c b.c⟩⟩
+/-- division by a *constant* polynomial — the only divisions `splderAt` performs are by knot differences -/
+instance : Div CP := ⟨fun a b => ⟨scaleL (1 / (normL b.c).headD 0) a.c⟩⟩
+def const (q : Rat) : CP := ⟨[q]⟩
+instance (n : Nat) : OfNat CP n := ⟨const n⟩
+/-- the indeterminate (the evaluation point `t`) -/
+def tVar : CP := ⟨[0, 1]⟩
+def derL : List Rat → List Rat
+  | [] => []
+  | _ :: as => as.zipIdx.map fun (a, i) => a * ((i : Nat) + 1 : Rat)
+/-- formal derivative -/
+def der (a : CP) : CP := ⟨derL a.c⟩
+/-- equality of polynomials (up to trailing zeros) -/
+def eqv (a b : CP) : Bool := normL a.c == normL b.c
+/-- Horner evaluation -/
+def evalAt (a : CP) (x : Rat) : Rat := a.c.foldr (fun c acc => c + x * acc) 0
+end CP
+
+/-- the polynomial in `t` that the executed `splderAt` computes on knot interval `l` (0 = left of the first knot,
+`n` = right of the last) for derivative order `k`, B-spline coefficient vector `e_i`, half order `m`, knots `kn` -/
+def splinePiece (m : Nat) (kn : List Rat) (i k l : Nat) : CP :=
+  splderAt (fun n => CP.const n) k m kn.length l CP.tVar (kn.map CP.const).toArray
+    ((Array.range kn.length).map fun j => if i = j then CP.const 1 else CP.const 0)
+
+/-- on every knot interval, for every coefficient basis vector and every order `k < 2m`: the order-`k+1` output is the
+formal derivative of the order-`k` output (`k = 0` is the value; order `2m` is identically 0) -/
+def splineDerivChainOK (m : Nat) (kn : List Rat) : Bool :=
+  (List.range kn.length).all fun i => (List.range (kn.length + 1)).all fun l => (List.range (2 * m)).all fun k =>
+    CP.eqv (CP.der (splinePiece m kn i k l)) (splinePiece m kn i (k + 1) l)
+
+/-- at every knot the pieces on both sides agree in value and in all derivatives up to order `2m−2` (= degree − 1) -/
+def splineContinuityOK (m : Nat) (kn : List Rat) : Bool :=
+  (List.range kn.length).all fun i => (List.range kn.length).all fun j => (List.range (2 * m - 1)).all fun k =>
+    CP.evalAt (splinePiece m kn i k j) (kn.getD j 0) == CP.evalAt (splinePiece m kn i k (j + 1)) (kn.getD j 0)
+
+/-- natural end conditions: outside the knot range the spline has degree `< m` -/
+def splineNaturalEndsOK (m : Nat) (kn : List Rat) : Bool :=
+  (List.range kn.length).all fun i =>
+    CP.eqv (splinePiece m kn i m 0) (CP.const 0) && CP.eqv (splinePiece m kn i m kn.length) (CP.const 0)
+
+/-- non-uniform knots used for the cubic instance -/
+def knots5 : List Rat := [0, 1, 3, 4, 6]
+
+/-- **linear splines (m = 1), knots 0,1,3**: the executed evaluator's derivative output is the derivative of its value
+output on every interval, for every coefficient basis vector -/
+theorem splder_linear_deriv_chain : splineDerivChainOK 1 [0, 1, 3] = true := by decide +kernel
+theorem splder_linear_continuous : splineContinuityOK 1 [0, 1, 3] = true := by decide +kernel
+/-- **cubic splines (m = 2), knots 0,1,3,4,6**: orders 1,2,3,4 of the executed evaluator are successive formal derivatives of
+its value, as polynomials in `t`, on all six intervals and for all five coefficient basis vectors -/
+theorem splder_cubic_deriv_chain : splineDerivChainOK 2 knots5 = true := by decide +kernel
+/-- cubic: value, first and second derivative are continuous across every knot (C², "the continuity the degree promises") -/
+theorem splder_cubic_C2 : splineContinuityOK 2 knots5 = true := by decide +kernel
+/-- cubic: second and higher derivatives vanish identically outside the knot range (natural end conditions) -/
+theorem splder_cubic_natural_ends : splineNaturalEndsOK 2 knots5 = true := by decide +kernel
 end C41
